@@ -42,6 +42,15 @@ def chunks4 : Bytes → List Nat
 
 def enc4 (l : List Nat) : Bytes := l.flatMap be32
 
+/-- a decimal `u32` literal as `str::parse::<u32>` reads it: an optional `+`, one or more digits,
+    value at most `u32::MAX` -/
+def decimalU32? (s : String) : Option Nat :=
+  let d := match s.toList with
+    | '+' :: r => String.ofList r
+    | _ => s
+  let v := d.toList.foldl (fun n c => n * 10 + (c.toNat - 48)) 0
+  if !d.isEmpty && d.toList.all Char.isDigit && v ≤ 4294967295 then some v else none
+
 /-- complete 8-byte groups -/
 def chunks8 : Bytes → List Bytes
   | a :: b :: c :: d :: e :: f :: g :: h :: r => [a, b, c, d, e, f, g, h] :: chunks8 r
@@ -316,6 +325,8 @@ structure DAsg where
   name : String
   dflt : Disp
   pols : List String
+  /-- `PolicyAssignment.needs_rpki`: the flag that gates reading the RPKI table -/
+  rpki : Bool
   deriving DecidableEq, Repr, Inhabited
 
 /-- `iter_defined_sets / iter_statements / iter_policies / iter_assignments`, sorted by name -/
@@ -325,6 +336,10 @@ structure Dump where
   pols : List DPol
   imp : Option DAsg
   exp : Option DAsg
+  /-- per listed statement (same order): the set objects its set conditions HOLD (`Arc`s) -/
+  heldSets : List (List SetObj)
+  /-- per listed policy (same order): the statements it HOLDS, each with the sets that one holds -/
+  heldStmts : List (List (DStmt × List SetObj))
   deriving DecidableEq, Repr, Inhabited
 
 /-! ## observations -/
